@@ -614,6 +614,10 @@ class FnTranslator:
             if not parts:
                 return 'py!""'
             return "(" + " ++ ".join(parts) + ")"
+        if isinstance(e, ast.Tuple) and len(e.elts) == 2 and isinstance(e.elts[1], ast.Starred) and not isinstance(e.elts[0], ast.Starred):
+            # `(a, *b)` is the same tuple as `tuple([a] + b)`: same translation
+            return self.expr(ast.Call(func=ast.Name(id="tuple", ctx=ast.Load()),
+                                      args=[ast.BinOp(left=ast.List(elts=[e.elts[0]], ctx=ast.Load()), op=ast.Add(), right=e.elts[1].value)], keywords=[]))
         if isinstance(e, ast.Tuple):
             if len(e.elts) == 1:
                 return f"[{self.expr(e.elts[0])}]"
@@ -878,6 +882,11 @@ class FnTranslator:
         if len(e.generators) != 1:
             raise Unsupported("nested dict comprehension")
         g = e.generators[0]
+        if not g.ifs and isinstance(g.target, ast.Tuple) and len(g.target.elts) == 2 and all(isinstance(x, ast.Name) for x in g.target.elts) \
+                and isinstance(e.key, ast.Name) and isinstance(e.value, ast.Name) and e.key.id == g.target.elts[0].id and e.value.id == g.target.elts[1].id \
+                and e.key.id != e.value.id:
+            # `{k: v for k, v in pairs}` is `dict(pairs)`: same translation
+            return self.expr(ast.Call(func=ast.Name(id="dict", ctx=ast.Load()), args=[g.iter], keywords=[]))
         fake = ast.ListComp(elt=ast.Tuple(elts=[e.key, e.value], ctx=ast.Load()), generators=e.generators)
         # value coercion for attribute dicts is left to hints
         ty = self.hints.get("dictcomp_type")
